@@ -18,10 +18,20 @@ ALLOWED_AXIOMS = {
 }
 
 
+def _big_stack():
+    """coqc reads the generated case files recursively: a text literal of ten thousand code points needs more than the default 8 MiB stack"""
+    import resource
+    soft, hard = resource.getrlimit(resource.RLIMIT_STACK)
+    try:
+        resource.setrlimit(resource.RLIMIT_STACK, (hard, hard))
+    except (ValueError, OSError):
+        pass
+
+
 def sh(cmd, timeout=COQ_TIMEOUT, cwd=None, env_=None, inp=None):
     t0 = time.time()
     try:
-        p = subprocess.run(cmd, shell=isinstance(cmd, str), cwd=cwd, env=env_, input=inp, capture_output=True, text=True, timeout=timeout)
+        p = subprocess.run(cmd, shell=isinstance(cmd, str), cwd=cwd, env=env_, input=inp, capture_output=True, text=True, timeout=timeout, preexec_fn=_big_stack)
         return p.returncode, p.stdout, p.stderr, time.time() - t0
     except subprocess.TimeoutExpired as e:
         return 124, (e.stdout or b'').decode() if isinstance(e.stdout, bytes) else (e.stdout or ''), 'TIMEOUT', time.time() - t0
@@ -121,7 +131,7 @@ class Ctx:
         body = f'Require Import {pfile}.\n' + ''.join(f'Print Assumptions {n}.\n' for n in names)
         f = os.path.join(self.work, f'Assum_{pfile}.v')
         open(f, 'w').write(body)
-        rc, out, err, dt = sh(['coqc', '-R', COQ, 'Depccg', f], timeout=600)
+        rc, out, err, dt = sh([env.COQC, '-R', COQ, 'Depccg', f], timeout=600)
         blocks = re.split(r'(?=Closed under the global context|Axioms:)', out)
         blocks = [b for b in blocks if b.strip()]
         allok = rc == 0 and len(blocks) == len(names)
@@ -177,7 +187,7 @@ class Ctx:
         while pending or running:
             while pending and len(running) < NPROC:
                 k, fn = pending.pop(0)
-                p = subprocess.Popen(['timeout', str(timeout), 'coqc', '-R', COQ, 'Depccg', '-Q', self.work, f'W{self.pid}', fn], stdout=subprocess.PIPE, stderr=subprocess.PIPE, text=True)
+                p = subprocess.Popen(['timeout', str(timeout), env.COQC, '-R', COQ, 'Depccg', '-Q', self.work, f'W{self.pid}', fn], stdout=subprocess.PIPE, stderr=subprocess.PIPE, text=True, preexec_fn=_big_stack)
                 running.append((k, fn, p))
             k, fn, p = running.pop(0)
             out, err = p.communicate()
